@@ -216,6 +216,14 @@ func GenCase(mode string) func(t *rapid.T) Case {
 				c.Conc = append(c.Conc, s)
 			}
 		}
+		if (mode == "C07" || mode == "C04") && rapid.IntRange(0, 9).Draw(t, "churn") == 0 {
+			c.Churn = &Churn{
+				G:      rapid.IntRange(2, 12).Draw(t, "churn-g"),
+				Iter:   rapid.SampledFrom([]int{200, 1000, 3000}).Draw(t, "churn-iter"),
+				Keep:   rapid.IntRange(0, 3).Draw(t, "churn-keep"),
+				Hinted: rapid.Bool().Draw(t, "churn-hinted"),
+			}
+		}
 		return c
 	}
 }
